@@ -45,6 +45,11 @@ def isAacSeqHeader (t : FTag) : Bool :=
 
 structure FCache where
   cacheGop : Bool
+  /-- `PushTo` stamps the replayed headers with the stream's current time when no GOP is cached
+      (`true`, the current tree); `false`: with 0, as before the repair -/
+  stampNow : Bool := true
+  /-- `lastTimestamp`: the timestamp of the latest media tag (0 before the first) -/
+  last : Nat := 0
   mdata : Option FTag := none
   vseq : Option FTag := none
   aseq : Option FTag := none
@@ -57,6 +62,7 @@ def FCache.pack (c : FCache) (t : FTag) : FCache × Bool :=
   else if isVideoSeqHeader t then ({ c with vseq := some t }, false)
   else if isAacSeqHeader t then ({ c with aseq := some t }, false)
   else
+    let c := { c with last := t.ts }
     let key := isKeyFrame t
     if c.cacheGop then
       if key then ({ c with gop := [t] }, key)
@@ -64,8 +70,12 @@ def FCache.pack (c : FCache) (t : FTag) : FCache × Bool :=
       else (c, key)
     else (c, key)
 
-/-- the timestamp the replayed headers are presented with -/
-def FCache.initTs (c : FCache) : Nat := match c.gop with | [] => 0 | t :: _ => t.ts
+/-- the timestamp the replayed headers are presented with: that of the first cached GOP tag;
+    without a cached GOP the stream's current time (the latest media tag's timestamp) -/
+def FCache.initTs (c : FCache) : Nat :=
+  match c.gop with
+  | [] => if c.stampNow then c.last else 0
+  | t :: _ => t.ts
 
 def restamp (ts : Nat) (t : FTag) : FTag := { t with ts := ts }
 
@@ -76,11 +86,19 @@ def FCache.headers (c : FCache) : List FTag :=
 /-- FlvCache.PushTo (note: the GOP is pushed whatever `cacheGop` says; it is empty when off) -/
 def FCache.pushTo (c : FCache) : List FTag := c.headers ++ c.gop
 
-def cacheAfter (gop : Bool) (ts : List FTag) : FCache :=
-  ts.foldl (fun c t => (c.pack t).1) { cacheGop := gop }
+/-- the cache `c0` after the tags `ts` went through `CachePack` -/
+def cacheFrom (c0 : FCache) (ts : List FTag) : FCache :=
+  ts.foldl (fun c t => (c.pack t).1) c0
+
+def cacheAfter (gop : Bool) (ts : List FTag) : FCache := cacheFrom { cacheGop := gop } ts
+
+/-- what a consumer that joined after `k` tags has been sent once `ts` were written (cache
+    initially `c0`) -/
+def expectedFrom (c0 : FCache) (ts : List FTag) (k : Nat) : List FTag :=
+  (cacheFrom c0 (ts.take k)).pushTo ++ ts.drop k
 
 /-- what a consumer that joined after `k` tags has been sent once `ts` were written -/
 def expected (gop : Bool) (ts : List FTag) (k : Nat) : List FTag :=
-  (cacheAfter gop (ts.take k)).pushTo ++ ts.drop k
+  expectedFrom { cacheGop := gop } ts k
 
 end IpcHub.FlvCacheM
